@@ -89,11 +89,16 @@ def desc(cfg):
     return ', '.join(f"{k}={v}" for k, v in cfg.items())
 
 
+SALT = [0]
+
+
 def observations(names, T):
-    """Arrivals with values that are unique per (arrival, feature)."""
+    """Arrivals with values that are unique per (execution, arrival, feature): a value seen by the model that belongs
+    to another execution's stream exposes state shared between independently constructed explainers."""
+    SALT[0] += 1
     out = []
     for t in range(T):
-        x = {n: F(10 * (t + 1) + j, 2) for j, n in enumerate(names)}
+        x = {n: F(10 * (t + 1) + j, 2) + 1000 * SALT[0] for j, n in enumerate(names)}
         out.append((x, F(t + 1, 3)))
     return out
 
@@ -229,7 +234,8 @@ def incremental_driver(cfg, T):
                         v = e[1][n]
                         if not (v == x[n]) and not any(v == ox[n] for ox, _ in obs[:t] + prefilled):
                             bad('foreign-value', cfg, f"{where}: model input {e[1]} has a value for {n!r} that is "
-                                                      f"neither x's nor an earlier arrival's of this explainer")
+                                                      f"neither x's nor an earlier arrival's of this explainer (state shared with another "
+                                                      f"explainer / an earlier stream?)")
             if t >= 1:
                 check_keys(cfg, names, ex.importance_values, f"{where}: importance_values")
             if not dict_eq(dict(ret), ex.importance_values) or list(ret.keys()) != list(ex.importance_values.keys()):
